@@ -6,7 +6,7 @@ PLACES = ["dirtyhole", "grown"]
 
 
 def opts(tier):
-    return dict(vias=("h", "v", "n"), vals=2, compounds=True, grow=True, deep_leaves=4 if tier == "quick" else 8, index_kinds=("h-i8", "h-u8", "h-i16"))
+    return dict(vias=("h", "v", "n"), vals=2, compounds=True, grow=True, deep_leaves=4 if tier == "quick" else 8, index_kinds=("h-i8", "h-u8", "h-i16"), resplit=True)
 
 
 def describe(tier):
@@ -55,6 +55,9 @@ def judge(s, ev, res):
     except common.Watchdog.Expired:
         return [common.violation("C10.terminates", "assignment-hangs", {}, {}, "")], False
     except Exception as e:
+        if ev[0] == "setc" and ev[3] == "xobj-resplit":
+            res.outcomes["misfit-refused"] += 1  # not a fitting value: every part keeps the room fixed at its creation
+            return [], False
         res.outcomes["refused"] += 1
         return [common.violation("C10.accepts-fitting", "refused:" + common.exc_failure(e), {}, {}, repr(e))], False
     # value locality
